@@ -1,16 +1,30 @@
-"""C15 back-pressure: real RSTransport / USTransport + session `_send_message` on a scripted
-fake asyncio transport and the virtual loop, against the Lean write-path model (`drv_c15`), with
-the property oracle on the implementation's own trace.
+"""C15 back-pressure: real RSTransport / USTransport + session `_send_message` (+ `close`) on a
+scripted fake asyncio transport and the virtual loop, against the Lean write-path model
+(`drv_c15`), with the property oracle on the implementation's own trace.
 
-Events:  ('S', sender, msg, flags)  a task calls session._send_message(b'<msg>')
+Events:  ('S', sender, msg, flags, big)  a task calls session._send_message(<body of msg>);
+                                          big: the framed message is 150-300 KB (several 64 KiB
+                                          pieces), otherwise a few bytes.  Text: `S s m f` / `B s m f`
          ('P',) buffer full (pause_writing)      ('R', flags) buffer drained (resume_writing)
          ('L',) link lost                         ('A', dt) virtual time passes
-flags = high-water script: one bool per write() that happens in this step; True = the transport
-calls pause_writing() from inside that write().
+         ('C', msg)  the harness cancels the task that is sending <msg> (no-op if it finished or
+                     does not exist)
+         ('G', p)    graceful close: a task calls session.close(force_after=100000).  The peer is
+                     stalled for the whole trace (the fake transport keeps every written byte
+                     unsent); p=1: it stays so - if anything was written the close stays pending
+                     (is_closing() true, connection_lost not delivered) until L / an abort /
+                     a later `G 0`; p=0: the peer consumes everything first, the close completes.
+flags = high-water script: one bool per transport.write() call that happens in this step; True =
+the transport calls pause_writing() from inside that write().
+
+The byte stream handed to the fake transport is cut into frames in the worker (`Impl._lex`) and
+judged by the oracle at stream level: whole frames of distinct sent messages, optionally followed
+by a proper prefix of one message whose sender is still in flight.
 """
 import asyncio
+import itertools
 import os
-import random
+import re
 from multiprocessing import Pool
 
 from harness import vloop
@@ -18,13 +32,38 @@ from harness import fake_transport as FT
 from harness.base import Results, corpus_lines
 
 MAXDELAY = 20
-RULE = ('case = sequence of <=12 events over {send by one of 4 senders (a sender never has two '
-        'sends outstanding... except when blocked ones pile up across senders), pause, resume, '
-        'link lost, time passes} with a scripted high-water policy (the transport may re-pause '
-        'inside any write), on RSTransport and USTransport alternately, max_send_delay=20; '
-        'exhaustive over all event sequences up to the stated length from a 9-letter alphabet + '
-        'seeded random longer ones; non-trivial = at least one sender was blocked and later '
-        'written or released; distinct = distinct (transport kind, event list)')
+FORCE_AFTER = 100000
+RULE = ('case = sequence of <=14 events over {send of a small or a big (150-300 KB framed) message '
+        'by one of 4 senders, pause, resume, link lost, time passes, cancel the sender of message '
+        'k, graceful close with/without unsent data} with a scripted high-water policy (the '
+        'transport may re-pause inside any write call), on RSTransport and USTransport, '
+        'max_send_delay=20; exhaustive over all event sequences up to the stated length from two '
+        'alphabets (both transports for length <= 3, alternating above) + seeded random longer '
+        'ones; non-trivial = at least one sender was blocked; distinct = distinct (transport '
+        'kind, event list)')
+
+_BODY = {}
+
+
+def body(m, big):
+    """unique, recognisable content per message id; never contains a newline"""
+    k = (m, big)
+    if k not in _BODY:
+        if big:
+            n = 150000 + (m % 4) * 50000
+            unit = b'<%d>' % m
+            _BODY[k] = (b'%d:' % m + unit * (n // len(unit) + 1))[:n]
+        else:
+            _BODY[k] = b'%d' % m
+    return _BODY[k]
+
+
+def frame_of(m, big):
+    """what a whole frame of message m is (NewlineFramer: the message and a newline)"""
+    return body(m, big) + b'\n'
+
+
+_DIGITS = re.compile(rb'\d+')
 
 
 class Impl:
@@ -40,9 +79,14 @@ class Impl:
 
         self.proto, self.tr, self.session = FT.make(self.mods, S, transport=kind,
                                                     framer=self.mods['framing'].NewlineFramer())
+        self.tr.hold = True             # the peer is stalled: written bytes stay unsent
         self.sess_time = sess.time
         sess.time = FT.TimeShim(self.loop)
         self.tasks = {}
+        self.closers = []
+        self.sent = {}                  # msg id -> big?
+        self.frames = {}                # msg id -> expected frame
+        self.tail = b''                 # bytes of the stream after the last whole line
         self.obs = []
         self.idle()
 
@@ -69,17 +113,58 @@ class Impl:
         self.loop._vtime = float(target)
         self.idle()
 
-    async def _send(self, s, m):
+    async def _send(self, s, m, big):
         try:
-            await self.session._send_message(b'%d' % m)
+            await self.session._send_message(body(m, big))
             self.obs.append(f'ok{s}.{m}@{int(self.loop.time())}')
         except self.TaskTimeout:
             self.obs.append(f'to{s}.{m}@{int(self.loop.time())}')
         except asyncio.CancelledError:
-            self.obs.append(f'cancelled{s}.{m}@{int(self.loop.time())}')
+            self.obs.append(f'ca{s}.{m}')
             raise
         except BaseException as e:      # noqa
             self.obs.append(f'exc{s}.{m}:{type(e).__name__}')
+
+    async def _close(self):
+        try:
+            await self.session.close(force_after=FORCE_AFTER)
+        except asyncio.CancelledError:
+            raise
+        except BaseException as e:      # noqa
+            self.obs.append(f'excclose:{type(e).__name__}')
+
+    def _whole(self, data):
+        """msg id if `data` is exactly the frame of a message passed to a send, else None"""
+        mm = _DIGITS.match(data)
+        if mm:
+            m = int(mm.group())
+            if self.frames.get(m) == data:
+                return m
+        return None
+
+    def _lex(self, chunks):
+        """cut the new bytes of the stream into lines; chunks = [(data, transport paused at
+        that write call)] -> (frames, tail-description, calls).  calls: per write call
+        (paused, does a byte that begins a new frame lie in this call, length)"""
+        frames, calls = [], []
+        for data, paused in chunks:
+            begins = (not self.tail and len(data) > 0) or data.find(b'\n', 0, len(data) - 1) >= 0
+            calls.append((bool(paused), bool(begins), len(data)))
+            buf = self.tail + data if self.tail else data
+            while True:
+                i = buf.find(b'\n')
+                if i < 0:
+                    break
+                line, buf = buf[:i + 1], buf[i + 1:]
+                m = self._whole(line)
+                frames.append(m if m is not None else ('bad', len(line), line[:32].decode('latin1')))
+            self.tail = buf
+        tail = None
+        if self.tail:
+            t = self.tail
+            tail = (len(t), sorted(m for m, f in self.frames.items() if f.startswith(t)),
+                    t[:32].decode('latin1'))
+        return frames, tail, calls
 
     def act(self, ev):
         self.obs = []
@@ -87,7 +172,9 @@ class Impl:
         k = ev[0]
         if k == 'S':
             self.tr.pause_script = list(ev[3])
-            t = self.loop.create_task(self._send(ev[1], ev[2]))
+            self.sent[ev[2]] = ev[4]
+            self.frames[ev[2]] = frame_of(ev[2], ev[4])
+            t = self.loop.create_task(self._send(ev[1], ev[2], ev[4]))
             self.tasks[ev[2]] = t
             self.idle()
             if not t.done():
@@ -101,16 +188,27 @@ class Impl:
             self.tr.drop()
         elif k == 'A':
             self.advance_to(int(self.loop.time()) + ev[1])
+        elif k == 'C':
+            t = self.tasks.get(ev[1])
+            if t is not None and not t.done():
+                t.cancel()
+        elif k == 'G':
+            if not ev[1]:
+                self.tr.release()
+            self.closers.append(self.loop.create_task(self._close()))
         self.idle()
         self.tr.pause_script = []
         # translate the transport's own log of this step
-        out = []
+        out, chunks = [], []
         for rec in self.tr.log[mark:]:
             kind = rec[1]
             if kind == 'write':
-                out.append(f'w{int(rec[2].rstrip())}:{int(rec[3])}')
+                m = self._whole(rec[2])
+                out.append(f'w{m}:{int(rec[3])}' if m is not None else f'wp{len(rec[2])}:{int(rec[3])}')
+                chunks.append((rec[2], rec[3]))
             elif kind == 'write-after-close':
-                out.append(f'wac{int(rec[2].rstrip())}')
+                m = self._whole(rec[2])
+                out.append(f'wac{m}' if m is not None else f'wacp{len(rec[2])}')
             elif kind == 'pause_reading':
                 out.append('pr')
             elif kind == 'resume_reading':
@@ -119,13 +217,17 @@ class Impl:
                 out.append(f'ab@{int(rec[0])}')
             elif kind == 'connection_lost':
                 out.append('lost')
+        frames, tail, calls = self._lex(chunks)
         return {
             'obs': tuple(sorted(out + self.obs)),
             'writes': [o for o in out if o.startswith('w') and not o.startswith('wac')],
-            'cl': self.tr.is_closing(), 'rd': self.tr.reading,
+            'cl': self.tr.is_closing(), 'lo': self.tr.lost_delivered, 'rd': self.tr.reading,
             'nb': sum(1 for t in self.tasks.values() if not t.done()),
             't': int(self.loop.time()),
             'paused': self.tr.paused_writing,
+            'frames': frames, 'tail': tail, 'calls': calls,
+            'inflight': sorted(m for m, t in self.tasks.items() if not t.done()),
+            'bytes': sum(len(c) for c, _p in chunks),
         }
 
     def close(self):
@@ -145,31 +247,34 @@ class Impl:
             self.loop.close()
 
 
+def _fl(f):
+    return ''.join('1' if x else '0' for x in f) or '-'
+
+
 def ser(ev):
     k = ev[0]
-    fl = lambda f: ''.join('1' if x else '0' for x in f) or '-'
     if k == 'S':
-        return f'S {ev[1]} {ev[2]} {fl(ev[3])}'
+        return f'{"B" if ev[4] else "S"} {ev[1]} {ev[2]} {_fl(ev[3])}'
     if k == 'R':
-        return f'R {fl(ev[1])}'
-    if k == 'A':
-        return f'A {ev[1]}'
+        return f'R {_fl(ev[1])}'
+    if k in ('A', 'C', 'G'):
+        return f'{k} {int(ev[1])}'
     return k
 
 
 def parse(text):
     evs = []
+    fl = lambda s: tuple(c == '1' for c in s) if s != '-' else ()
     for tok in text.split(';'):
         f = tok.split()
         if not f:
             continue
-        fl = lambda s: tuple(c == '1' for c in s) if s != '-' else ()
-        if f[0] == 'S':
-            evs.append(('S', int(f[1]), int(f[2]), fl(f[3])))
+        if f[0] in ('S', 'B'):
+            evs.append(('S', int(f[1]), int(f[2]), fl(f[3]), f[0] == 'B'))
         elif f[0] == 'R':
             evs.append(('R', fl(f[1])))
-        elif f[0] == 'A':
-            evs.append(('A', int(f[1])))
+        elif f[0] in ('A', 'C', 'G'):
+            evs.append((f[0], int(f[1])))
         else:
             evs.append((f[0],))
     return evs
@@ -186,95 +291,143 @@ def run_trace(repo, kind, events):
 def parse_model(rec):
     parts = rec.split(' ')
     f = {p.split('=', 1)[0]: p.split('=', 1)[1] for p in parts}
-    return (tuple(sorted(x for x in f['obs'].split(',') if x)), f['cl'] == '1', f['rd'] == '1',
-            int(f['nb']), int(f['t']))
+    obs = [x for x in f['obs'].split(',') if x]
+    # the observations of a step as a set, plus the write calls in their order
+    return (tuple(sorted(obs)), tuple(x for x in obs if x.startswith('w')), f['cl'] == '1',
+            f['lo'] == '1', f['rd'] == '1', int(f['nb']), int(f['t']))
 
 
 def key(rec):
-    return (rec['obs'], rec['cl'], rec['rd'], rec['nb'], rec['t'])
+    return (rec['obs'], tuple(rec['writes']), rec['cl'], rec['lo'], rec['rd'], rec['nb'], rec['t'])
 
 
 def oracle(events, recs):
-    """from the property text, on the implementation's trace"""
+    """from the property text, on the implementation's trace (observables only: the byte stream
+    handed to the asyncio transport cut into lines, the transport's pause state at each write
+    call, pause/resume_reading, abort and its time, how and when every sender ended)"""
     bad = []
     sent, written, done = {}, [], {}
-    paused, lost = False, False
     for idx, (ev, rec) in enumerate(zip(events, recs)):
         if ev[0] == 'S':
-            sent[ev[2]] = (ev[1], idx, rec['t'] if ev[0] != 'A' else None)
+            sent[ev[2]] = (ev[1], idx)
         for o in rec['obs']:
             if o.startswith('wac'):
                 pass
             elif o.startswith('w'):
-                m, p = o[1:].split(':')
-                m = int(m)
-                if p == '1':
-                    bad.append(('c15:write-while-paused',
-                                f'step {idx} {ev}: message {m} was written while the transport '
-                                f'reported its send buffer full'))
-                if m in written:
-                    bad.append(('c15:written-twice', f'message {m} written twice'))
-                if m not in sent:
-                    bad.append(('c15:unknown-bytes', f'bytes {m} were never sent by anybody'))
-                if lost:
-                    bad.append(('c15:write-after-loss', f'message {m} written after the loss'))
-                written.append(m)
+                pass        # one transport.write() call: judged below, at stream level
             elif o.startswith('ok') or o.startswith('to'):
                 s, rest = o[2:].split('.')
                 m, at = rest.split('@')
-                done[int(m)] = (o[:2], int(at))
-            elif o.startswith('exc') or o.startswith('cancelled'):
+                done[int(m)] = (o[:2], int(at), idx)
+            elif o.startswith('ca'):
+                m = int(o[2:].split('.')[1])
+                done[m] = ('ca', rec['t'], idx)
+                if not (ev[0] == 'C' and ev[1] == m):
+                    bad.append(('c15:sender-other-exception',
+                                f'step {idx} {ev}: the sender of message {m} ended with '
+                                f'CancelledError although nobody cancelled it'))
+            elif o.startswith('exc'):
                 bad.append(('c15:sender-other-exception', f'step {idx}: {o}'))
-            elif o == 'lost':
-                lost = True
+        # while the transport reports its send buffer full nothing further is written: no byte
+        # that begins a new frame is handed over in a call made while it is paused (finishing
+        # the frame that was being handed over when the transport said "full" is not "further")
+        for paused, begins, n in rec['calls']:
+            if paused and begins:
+                bad.append(('c15:write-while-paused',
+                            f'step {idx} {ev}: a write call of {n} bytes that begins a new '
+                            f'message was made while the transport reported its send buffer full'))
+        # ---- the byte stream: whole frames of distinct sent messages ...
+        for f in rec['frames']:
+            if not isinstance(f, int):
+                bad.append(('c15:interleaved-frame',
+                            f'step {idx} {ev}: the stream contains a line of {f[1]} bytes '
+                            f'(starts {f[2]!r}) that is not the whole frame of any message sent: '
+                            f'a partial frame followed by / mixed with other bytes'))
+                continue
+            if f in written:
+                bad.append(('c15:written-twice', f'step {idx} {ev}: message {f} written twice'))
+            written.append(f)
+        # ... optionally followed by a proper prefix of one message whose sender is in flight
+        if rec['tail'] is not None:
+            n, cands, start = rec['tail']
+            cands = [m for m in cands if m not in written]
+            if not cands:
+                bad.append(('c15:interleaved-frame',
+                            f'step {idx} {ev}: the stream ends with {n} bytes (start {start!r}) that '
+                            f'are not the beginning of any unwritten message'))
+            elif not rec['cl'] and not any(m in rec['inflight'] for m in cands):
+                m = cands[0]
+                how = done.get(m, ('?',))[0]
+                bad.append(('c15:partial-frame',
+                            f'step {idx} {ev}: {n} bytes of message {m} are on the stream, its '
+                            f'sender has ended ({how}) and the connection is up: the message was '
+                            f'neither written whole nor not at all, and whatever is written next '
+                            f'follows a partial frame'))
         # reading follows writing while the connection is up
         if not rec['cl'] and rec['rd'] == rec['paused']:
             bad.append(('c15:reading-not-tracking',
                         f'step {idx} {ev}: transport paused={rec["paused"]} but reading={rec["rd"]}'))
+        # when room is reported the blocked messages are written: nobody waits on a transport
+        # that does not report its buffer full
+        if not rec['paused'] and rec['nb']:
+            bad.append(('c15:blocked-with-room',
+                        f'step {idx} {ev}: the transport reports room but {rec["nb"]} sender(s) '
+                        f'({rec["inflight"]}) are still blocked'))
         # nobody stays blocked once the connection is lost
-        if rec['cl'] and rec['nb']:
+        if rec['lo'] and rec['nb']:
             bad.append(('c15:writer-left-hanging',
                         f'step {idx} {ev}: {rec["nb"]} senders still blocked after the loss'))
-        # a sender blocked for max_send_delay is released by an abort at exactly that time
-        for m, (s, sidx, _t) in sent.items():
+        # a sender blocked for max_send_delay is released by an abort at exactly that time -
+        # whether or not somebody has asked for a graceful close in the meantime
+        for m, (s, sidx) in sent.items():
             t0 = recs[sidx]['t']
-            if m not in done and rec['t'] >= t0 + MAXDELAY and not rec['cl']:
+            if m not in done and rec['t'] >= t0 + MAXDELAY:
                 bad.append(('c15:stall-not-aborted',
-                            f'message {m} sent at {t0} still blocked at {rec["t"]} and the '
-                            f'connection has not been aborted'))
-            if m in done and done[m][0] == 'to':
+                            f'message {m} sent at {t0} still blocked at {rec["t"]} '
+                            f'(max_send_delay {MAXDELAY}; closing={rec["cl"]} lost={rec["lo"]})'))
+            if m in done and done[m][0] == 'to' and done[m][2] == idx:
                 if done[m][1] != t0 + MAXDELAY:
                     bad.append(('c15:abort-time', f'message {m} sent at {t0} timed out at '
                                                   f'{done[m][1]} (max_send_delay {MAXDELAY})'))
                 if not any(o == f'ab@{done[m][1]}' for r in recs for o in r['obs']):
-                    bad.append(('c15:timeout-without-abort', f'message {m} timed out without abort'))
+                    bad.append(('c15:timeout-without-abort',
+                                f'step {idx} {ev}: message {m} could not be written within '
+                                f'max_send_delay (TaskTimeout at {done[m][1]}) but the connection '
+                                f'was not aborted (closing={rec["cl"]} lost={rec["lo"]})'))
     # a message whose send completed while the connection was up was written exactly once
-    for m, (kind, at) in done.items():
-        if kind == 'ok' and m not in written:
-            # dropped silently: only allowed when the connection was already closing
-            sidx = sent[m][1]
-            end = next(i for i, r in enumerate(recs) if any(
-                o.startswith(f'ok{sent[m][0]}.{m}@') for o in r['obs']))
-            if not recs[end]['cl']:
-                bad.append(('c15:accepted-not-written',
-                            f'message {m}: the send returned normally on a live connection but '
-                            f'nothing was written'))
+    for m, (kind, at, idx) in done.items():
+        if kind == 'ok' and m not in written and not recs[idx]['cl']:
+            bad.append(('c15:accepted-not-written',
+                        f'message {m}: the send returned normally on a live connection but '
+                        f'the message is not (whole) on the stream'))
+    # messages one task sends one after another keep their order
+    pos = {m: i for i, m in enumerate(written)}
+    for a in pos:
+        for b in pos:
+            if (sent[a][0] == sent[b][0] and a in done and done[a][2] < sent[b][1]
+                    and pos[a] > pos[b]):
+                bad.append(('c15:order', f'sender {sent[a][0]}: message {a} completed before '
+                                         f'{b} was sent but is behind it on the stream'))
     return bad
 
 
+# family 1: three senders, fine-grained time
 ALPHABET_QUICK = [('S0',), ('S1',), ('S2p',), ('P',), ('R',), ('Rp',), ('L',), ('A7',), ('A15',)]
+# family 2: small/big messages (p: the transport re-pauses inside the first write call), cancel
+# of message 1 / 2, graceful close with a stalled peer, one time step beyond max_send_delay
+ALPHABET_2 = [('S',), ('Sp',), ('B',), ('Bp',), ('P',), ('R',), ('Rp',), ('G',), ('C1',), ('C2',),
+              ('A25',), ('L',)]
 
 
 def expand(seq):
     """turn letter sequences into concrete events with fresh message ids"""
     evs, mid = [], 0
-    paused = False
     for (x,) in seq:
-        if x.startswith('S'):
+        if x[0] in 'SB':
             mid += 1
-            evs.append(('S', int(x[1]), mid, (True,) if x.endswith('p') else ()))
-            if x.endswith('p') and not paused:
-                paused = paused      # the model decides; tracked loosely
+            p = x.endswith('p')
+            sender = int(x[1]) if x[1:2].isdigit() else mid % 3
+            evs.append(('S', sender, mid, (True,) if p else (), x[0] == 'B'))
         elif x == 'P':
             evs.append(('P',))
         elif x == 'R':
@@ -283,29 +436,38 @@ def expand(seq):
             evs.append(('R', (True,)))
         elif x == 'L':
             evs.append(('L',))
+        elif x == 'G':
+            evs.append(('G', 1))
+        elif x[0] == 'C':
+            evs.append(('C', int(x[1:])))
         else:
             evs.append(('A', int(x[1:])))
     return evs
-
-
-def legal(evs_recs):
-    return True
 
 
 def random_trace(r):
     evs, mid = [], 0
     for _ in range(r.randint(3, 14)):
         k = r.random()
-        if k < 0.45:
+        if k < 0.40:
             mid += 1
-            fl = tuple(r.random() < 0.3 for _ in range(1))
-            evs.append(('S', r.randrange(4), mid, fl))
-        elif k < 0.6:
+            big = r.random() < 0.3
+            # a big message may be handed over in several calls by a changed write(): script
+            # the high-water answer for the later calls too
+            fl = tuple(r.random() < 0.3 for _ in range(r.randint(1, 3) if big else 1))
+            evs.append(('S', r.randrange(4), mid, fl, big))
+        elif k < 0.53:
             evs.append(('P',))
-        elif k < 0.8:
+        elif k < 0.70:
             evs.append(('R', tuple(r.random() < 0.4 for _ in range(r.randint(0, 4)))))
-        elif k < 0.86:
+        elif k < 0.75:
             evs.append(('L',))
+        elif k < 0.83:
+            # mostly a message that exists (and may be blocked), sometimes one that does not
+            evs.append(('C', r.randint(max(1, mid - 3), mid) if mid and r.random() < 0.9
+                        else r.randint(1, 20)))
+        elif k < 0.88:
+            evs.append(('G', 1 if r.random() < 0.8 else 0))
         else:
             evs.append(('A', r.choice([1, 5, 10, 19, 20, 21, 40])))
     return evs
@@ -348,10 +510,25 @@ def evaluate(ctx, jobs, res):
                                          event=ser(evs[st]))
                         break
         allobs = [o for r in recs for o in r['obs']]
-        res.count('writes', sum(o.startswith('w') and not o.startswith('wac') for o in allobs))
+        res.count('write_calls', sum(o.startswith('w') and not o.startswith('wac') for o in allobs))
+        res.count('frames_on_stream', sum(len(r['frames']) for r in recs))
+        res.count('stream_bytes', sum(r['bytes'] for r in recs))
+        res.count('sends_small', sum(1 for e in evs if e[0] == 'S' and not e[4]))
+        res.count('sends_big', sum(1 for e in evs if e[0] == 'S' and e[4]))
+        res.count('big_frames_on_stream', sum(1 for e in evs if e[0] == 'S' and e[4]
+                                              and any(e[2] in r['frames'] for r in recs)))
         res.count('blocked_senders', sum(o.startswith('bl') for o in allobs))
         res.count('timeouts', sum(o.startswith('to') for o in allobs))
         res.count('losses', sum(o == 'lost' for o in allobs))
+        res.count('cancel_events', sum(1 for e in evs if e[0] == 'C'))
+        res.count('cancelled_blocked_senders', sum(o.startswith('ca') for o in allobs))
+        res.count('gclose_events', sum(1 for e in evs if e[0] == 'G'))
+        pend = [j for j, r in enumerate(recs) if r['cl'] and not r['lo']]
+        res.count('steps_close_pending', len(pend))
+        res.count('steps_close_pending_with_blocked', sum(1 for j in pend if recs[j]['nb']))
+        res.count('timeouts_while_close_pending',
+                  sum(1 for j, r in enumerate(recs) if j and (j - 1) in pend
+                      and any(o.startswith('to') for o in r['obs'])))
         res.count('repause_inside_write', sum(1 for r in recs if 'pr' in r['obs'] and r['writes']))
         if any(o.startswith('bl') for o in allobs):
             res.nontrivial((kind, case['events']))
@@ -360,29 +537,49 @@ def evaluate(ctx, jobs, res):
     res['evaluations'] += len(jobs)
 
 
+def _kinds(i):
+    return 'rs' if i % 2 == 0 else 'us'
+
+
 def run(ctx):
-    import itertools
     res = Results()
-    corp = [('rs' if i % 2 == 0 else 'us', parse(ln))
-            for i, ln in enumerate(corpus_lines(ctx.verif, 'C15'))]
+    corp = []
+    for ln in corpus_lines(ctx.verif, 'C15'):
+        corp += [('rs', parse(ln)), ('us', parse(ln))]
     if corp:
         evaluate(ctx, corp, res)
     res['scopes']['corpus'] = len(corp)
-    n = (150000 if ctx.tier == 'thorough' else 30000) if ctx.deep else 3000
-    jobs = [('rs' if i % 2 == 0 else 'us', random_trace(ctx.rng)) for i in range(n)]
-    evaluate(ctx, jobs, res)
-    res['scopes']['generated'] = n
+    # family 1 goes to length 5 whenever the run is deep (thorough tier, source drift, broken
+    # obligation); the 12-letter family 2 only in the thorough tier (12^5 = 249k traces)
     maxlen = 5 if ctx.deep else 4
+    maxlen2 = 5 if ctx.tier == 'thorough' else 4
     done = 0
     for ln in range(1, maxlen + 1):
         if res.failed and ln > 3:
             break
-        seqs = list(itertools.product(ALPHABET_QUICK, repeat=ln))
-        jobs = [('rs' if i % 2 == 0 else 'us', expand(s)) for i, s in enumerate(seqs)]
+        jobs = []
+        for alphabet, mx in ((ALPHABET_QUICK, maxlen), (ALPHABET_2, maxlen2)):
+            if ln > mx:
+                continue
+            for i, s in enumerate(itertools.product(alphabet, repeat=ln)):
+                evs = expand(s)
+                if ln <= 3:
+                    jobs += [('rs', evs), ('us', evs)]
+                else:
+                    jobs.append((_kinds(i), evs))
         evaluate(ctx, jobs, res)
         done = ln
-    res['scopes']['exhaustive'] = {'alphabet': [a[0] for a in ALPHABET_QUICK],
-                                   'max_len': done}
+    # seeded structured generator: longer traces, several flags per write, G 0, cancels of
+    # arbitrary ids (mostly-valid + some that refer to nothing)
+    n = (150000 if ctx.tier == 'thorough' else 30000) if ctx.deep else 3000
+    if res.failed:
+        n = min(n, 3000)
+    jobs = [(_kinds(i), random_trace(ctx.rng)) for i in range(n)]
+    evaluate(ctx, jobs, res)
+    res['scopes']['generated'] = n
+    res['scopes']['exhaustive'] = {'alphabets': [[a[0] for a in ALPHABET_QUICK],
+                                                 [a[0] for a in ALPHABET_2]],
+                                   'max_len': [min(done, maxlen), min(done, maxlen2)]}
     return res.finish(RULE, exhaustive=(done == maxlen))
 
 
